@@ -177,6 +177,10 @@ def _one(prop: str, kind: str, name: str, gen, expect_keys: Optional[List[str]])
             named = [k for k in (expect_keys or []) if any(k in f for f in fails)]
             ok = rc == 1 and (not expect_keys or bool(named))
             return {"kind": kind, "name": name, "status": "fired" if ok else f"NOT DETECTED (rc={rc})", "ok": ok, "reported": fails[:2]}
+        if kind == "benign-undecided-ok":
+            ok = rc in (0, 2)
+            return {"kind": "benign", "name": name, "status": {0: "silent", 2: "not decided on this shape (recorded)"}.get(rc, f"ALARM rc={rc}"), "ok": ok,
+                    "reported": (fails or out.splitlines()[-2:])[:2]}
         if kind == "benign":
             ok = rc == 0
             return {"kind": kind, "name": name, "status": "silent" if ok else f"ALARM/ERROR rc={rc}", "ok": ok, "reported": (fails or out.splitlines()[-2:])[:2]}
@@ -207,7 +211,9 @@ def run_selftest(prop: str) -> Dict[str, Any]:
     jobs.append(("benign", "black line-length 60", v_black(60), None))
     jobs.append(("benign", "black line-length 140", v_black(140), None))
     for b in sorted((SEEDED / "benign").glob("*/patch.diff")):
-        jobs.append(("benign", "benign:" + b.parent.name, v_patch(b), None))
+        bm = json.loads((b.parent / "meta.json").read_text()) if (b.parent / "meta.json").exists() else {}
+        kind_b = "benign-undecided-ok" if prop in bm.get("undecided_ok", []) else "benign"
+        jobs.append((kind_b, "benign:" + b.parent.name, v_patch(b), None))
     jobs.append(("rename", "function-local variables renamed", v_rename_locals, None))
     from sa.variants import VARIANTS
     for vname, gen in VARIANTS.items():
